@@ -30,7 +30,7 @@ type idleCase struct {
 
 func TestC08_LongSync(t *testing.T) {
 	pbt.Run(t, pbt.Config{Prop: "C08", Unit: "TestC08_LongSync", TrackCurrent: true,
-		Rule: "one publisher; a first sync (announce-triggered, explicit, or an entries sync) is parked at the publisher's gate (at its first block request, or, for an explicit sync, at its head query); virtual time advances by a drawn amount around the subscriber's idle-handler time-to-live (1..5 s; HTTP timeout 1 h, so the sync itself just takes long); then more ads are published and a second sync arrives (announcement or explicit), optionally a third announcement; then the gate opens; oracle at exact quiescence: never two block requests of the publisher in flight at once, every advertisement up to latest-sync reported exactly once, latest-sync = the last head. Non-trivial: the wait exceeds the time-to-live; distinct by case.",
+		Rule: "one publisher; a first sync (announce-triggered, explicit, or an entries sync) is parked at the publisher's gate (at its first block request, or, for an explicit sync, at its head query); virtual time advances by a drawn amount around the subscriber's idle-handler time-to-live (1..5 s; HTTP timeout 1 h, so the sync itself just takes long); then more ads are published and a second sync arrives (announcement or explicit), optionally a third announcement (not while an explicit sync still waits for its head: that is known finding KF-C08-2, excluded and counted); then the gate opens; oracle at exact quiescence: never two block requests of the publisher in flight at once, every advertisement up to latest-sync reported exactly once, latest-sync = the last head. Non-trivial: the wait exceeds the time-to-live; distinct by case.",
 	}, func(t *rapid.T) idleCase {
 		c := idleCase{N1: rapid.IntRange(1, 4).Draw(t, "n1"), N2: rapid.IntRange(1, 3).Draw(t, "n2"), TTLs: rapid.IntRange(1, 5).Draw(t, "ttl")}
 		c.First = rapid.SampledFrom([]string{"announce", "announce", "sync", "entries"}).Draw(t, "first")
@@ -101,7 +101,15 @@ func TestC08_LongSync(t *testing.T) {
 			}
 			// the second sync may now be waiting on a library mutex behind the parked one: no synctest.Wait here
 			w.SettleUntil(nil)
-			if c.Third {
+			third := c.Third
+			if third && c.AtHead {
+				// known finding KF-C08-2: the explicit sync has not asked for the head yet; it will get the newest one,
+				// and an older announcement that the watcher hands over only afterwards is then handled as if it were
+				// new. Excluded by construction (counted), like in the scripts.
+				third = false
+				res.Classes = append(res.Classes, "excluded:KF-C08-2:second-announcement-while-head-query-outstanding")
+			}
+			if third {
 				p.ExtendAds(1)
 				_ = s.S.Announce(ctx, p.Chain[len(p.Chain)-1], p.Info())
 				w.SettleUntil(nil)
